@@ -1,7 +1,7 @@
 SPECIFICATION Spec
 CONSTANTS Writers = {1, 2}
  MsgsPerWriter = 2
- Defects = {"chanClose", "writeErrLeak", "closeReported"}
+ Defects = {"chanClose", "writeErrLeak", "closeReported", "frameBeforeMark"}
  InitFrames <- OneFrame
  MaxFaults = 1
  AllowBlock = TRUE
